@@ -55,19 +55,21 @@ func (f *Prog) Call(s *slip.Scope, args slip.List, depth int) slip.Object {
 	d2 := depth + 1
 	processBinding(s, ns, args[0], d2)
 	for i := 1; i < len(args); i++ {
+		switch args[i].(type) {
+		case slip.List, slip.Funky:
+			// a statement
+		default:
+			continue // a tag, never evaluated
+		}
 		switch tr := slip.EvalArg(ns, args, i, d2).(type) {
 		case *slip.ReturnResult:
 			if tr.Tag == nil {
 				return tr.Result
 			}
-			if s.Block {
-				return tr
-			}
+			return tr // a block further out, return-from checked that it exists
 		case *GoTo:
-			for i++; i < len(args); i++ {
-				if args[i] == tr.Tag {
-					break
-				}
+			if i = tagIndex(args, 1, tr.Tag); i < 0 {
+				return tr // a tag of an enclosing tagbody
 			}
 		}
 	}
